@@ -267,13 +267,52 @@ fn run_one(payload: &str) -> String {
         Some(r) => r,
         None => return "bad-req".into(),
     };
+    let threads: usize = kv(cfg, "th").parse().unwrap_or(1);
     let outs: Vec<String> = if kv(cfg, "fl") == "conc" {
         let mut b: RawBundle<FluentResource, intl_memoizer::concurrent::IntlLangMemoizer> =
             RawBundle::new_concurrent(vec![loc]);
         if configure(&mut b, cfg, ress, fns).is_none() {
             return "bad-case".into();
         }
-        reqs.iter().map(|r| answer(&b, r)).collect()
+        if threads > 1 {
+            // C15: the bundle is shared by reference; every thread issues every request (in a rotated
+            // order) starting from a cold formatter cache, released together by a barrier
+            let barrier = std::sync::Barrier::new(threads);
+            let n = reqs.len();
+            let results: Vec<Vec<String>> = std::thread::scope(|sc| {
+                let handles: Vec<_> = (0..threads)
+                    .map(|t| {
+                        let b = &b;
+                        let reqs = &reqs;
+                        let barrier = &barrier;
+                        sc.spawn(move || {
+                            let mut out = vec![String::new(); n];
+                            barrier.wait();
+                            for k in 0..n {
+                                let i = (k + t * 3) % n;
+                                out[i] = answer(b, &reqs[i]);
+                            }
+                            out
+                        })
+                    })
+                    .collect();
+                handles
+                    .into_iter()
+                    .map(|h| h.join().unwrap_or_else(|_| vec!["PANIC thread".to_string(); n]))
+                    .collect()
+            });
+            let mut outs = results[0].clone();
+            for (t, r) in results.iter().enumerate().skip(1) {
+                for i in 0..n {
+                    if r[i] != results[0][i] {
+                        outs[i] = format!("{} THREADS-DISAGREE(thread {}: {})", outs[i], t, r[i]);
+                    }
+                }
+            }
+            outs
+        } else {
+            reqs.iter().map(|r| answer(&b, r)).collect()
+        }
     } else {
         let mut b: RawBundle<FluentResource, intl_memoizer::IntlLangMemoizer> =
             RawBundle::new(vec![loc]);
